@@ -319,6 +319,27 @@ fn cpr_pair_lines() -> Vec<Vec<u8>> {
 
 fn byte_level_lines() -> Vec<Vec<u8>> {
     let mut v: Vec<Vec<u8>> = vec![vec![]];
+    // the unusable-line alphabet of C13 (pieces of wrapped records, markers with multi-byte characters before
+    // the ';', ...), and every marker / terminator combination around a multi-byte character
+    v.extend(crate::props::c13::junk_alphabet().into_iter().filter(|(_, b)| b.len() < 4096).map(|(_, b)| b));
+    for head in ["*", "@", " *", "@0123456789AB", ""] {
+        for body in ["", "8D4062", "8D40621D58C382D690C8AC2863A", "8D40621D58C382D690C8AC2863A7"] {
+            for odd in ["\u{e9}", "\u{20ac}", "\u{1d11e}", "\u{ff41}", "x\u{e9}", "\u{e9}x"] {
+                for tail in [";", "", "; ", ";\r", ";;"] {
+                    v.push(format!("{head}{body}{odd}{tail}").into_bytes());
+                    v.push(format!("{head}{odd}{body}{tail}").into_bytes());
+                }
+            }
+            for raw in [&[0xFFu8, 0xFE][..], &[0x80], &[0xC3], &[0xE2, 0x82]] {
+                for tail in [";", ""] {
+                    let mut l = format!("{head}{body}").into_bytes();
+                    l.extend_from_slice(raw);
+                    l.extend_from_slice(tail.as_bytes());
+                    v.push(l);
+                }
+            }
+        }
+    }
     for a in 0..=255u8 {
         if a == b'\n' {
             continue;
@@ -691,7 +712,7 @@ fn run(ctx: &mut Ctx) {
     // table is drawn after every frame and nothing ever expires
     for (k, opts) in aged_draw_option_sets().iter().enumerate() {
         job += 1;
-        if ctx.mine(job) {
+        if ctx.mine(job) && crate::run::file_source_streams() {
             ctx.count("aged-table-drawn");
             aged_draw(ctx, k, opts);
         }
